@@ -1835,6 +1835,20 @@ def lu_solve(B, LU, pivots, *, left=True, adjoint=False):
     return matmul(inverse(src), B)
 
 
+@handles("linalg_lu_factor")
+def linalg_lu_factor(A, *, pivot=True, out=None):
+    """torch.linalg.lu_factor: the same opaque factorisation carrier as torch.lu"""
+    return lu(A, pivot=pivot)
+
+
+@handles("linalg_lu_solve")
+def linalg_lu_solve(LU, pivots, B, *, left=True, adjoint=False, out=None):
+    """torch.linalg.lu_solve(LU, pivots, B): argument order differs from the deprecated torch.lu_solve(B, LU, pivots)"""
+    if not left or adjoint:
+        raise NotModelled("linalg.lu_solve with left=False / adjoint=True")
+    return lu_solve(B, LU, pivots)
+
+
 @handles("qr")
 def qr(a, some=True):
     return torch.qr(torch.zeros(1, 1))  # raises exactly like real torch (removed API)
